@@ -82,20 +82,32 @@ def blocks3(K, row0=0, nd=None):
     return out
 
 
-def compare_matrix(ctx, name, got, ref, tol, num=3, row0=0, nd=None, bucket=None, floor=None):
+def compare_matrix(ctx, name, got, ref, tol, num=3, row0=0, nd=None, bucket=None, floor=None, full_ref=None):
     """whole-matrix comparison relative to max|ref| plus per-block comparison relative to each block's own
-    natural scale sqrt(max|diag_a| max|diag_b|) (a small block is not hidden by a big one)."""
+    natural scale sqrt(max|diag_a| max|diag_b|) (a small block is not hidden by a big one).
+
+    full_ref: for matrices integrated over a sub-interval [y1, y2], the reference matrix of the FULL width.  The package's sub-interval
+    tables are differences of antiderivatives, each of the size of the full-width integral; on a sliver next to an edge where the trial
+    functions vanish the result is tiny and resolved only to eps times the full-width size, which enters as an absolute floor
+    (2e-13 x the corresponding full-width block scale)."""
     got = dense(got)
     ref = np.asarray(ref)
     bucket = bucket or name
     if got.shape != ref.shape:
         from .core import Violation
         raise Violation(bucket, '%s shape %s != %s' % (name, got.shape, ref.shape))
-    ctx.close(name, got, ref, tol, bucket=bucket)
+    fl_all = 2e-13 * float(np.max(np.abs(full_ref))) if full_ref is not None else 0.
+    ctx.close(name, got, ref, tol, bucket=bucket, atol=fl_all)
+    if num == 1 and full_ref is not None:
+        return
     if num == 3:
         nd = ref.shape[0] - row0 if nd is None else nd
         dg = np.abs(np.diag(ref))[row0:row0 + nd]
         sc = [np.max(dg[k::3]) if dg[k::3].size else 0. for k in range(3)]
+        fsc = None
+        if full_ref is not None:
+            fdg = np.abs(np.diag(np.asarray(full_ref)))[row0:row0 + nd]
+            fsc = [np.max(fdg[k::3]) if fdg[k::3].size else 0. for k in range(3)]
         gb = blocks3(got, row0, nd)
         rb = blocks3(ref, row0, nd)
         for a in range(3):
@@ -105,7 +117,8 @@ def compare_matrix(ctx, name, got, ref, tol, num=3, row0=0, nd=None, bucket=None
                 if s <= 0:
                     s = np.max(np.abs(rb[key])) if rb[key].size else 0.
                 if s > 0:
-                    ctx.close(name + '.' + key, gb[key], rb[key], tol, bucket=bucket + '.' + key, scale=s)
+                    ctx.close(name + '.' + key, gb[key], rb[key], tol, bucket=bucket + '.' + key, scale=s,
+                              atol=2e-13 * np.sqrt(fsc[a] * fsc[b]) if fsc is not None else 0.)
                 else:
                     ctx.close(name + '.' + key, gb[key], rb[key], 0., bucket=bucket + '.' + key, scale=0., atol=floor or 0.)
 
